@@ -1,6 +1,10 @@
 package main
 
-import "encoding/hex"
+import (
+	"encoding/hex"
+	"os"
+	"path/filepath"
+)
 
 // hx / unhx: byte strings on case lines are lower-case hex, "-" being the empty string.
 func hx(b []byte) string {
@@ -16,4 +20,18 @@ func unhx(s string) ([]byte, bool) {
 	}
 	b, err := hex.DecodeString(s)
 	return b, err == nil
+}
+
+// binDir is where binaries built from the tree under check go: VERIF_BIN when the driver gives it
+// (a separate directory per checked tree, so that a check of a scratch worktree never replaces the
+// binaries a concurrent check of /repo is using), else <VERIF_ROOT>/bin.
+func binDir() string {
+	if d := os.Getenv("VERIF_BIN"); d != "" {
+		return d
+	}
+	root := os.Getenv("VERIF_ROOT")
+	if root == "" {
+		root = "/verif"
+	}
+	return filepath.Join(root, "bin")
 }
